@@ -44,6 +44,8 @@ const (
 	FaultCancelAtOffspring
 	FaultCancelAtSpeciate
 	numFaultKinds
+	// FaultDeadline is not placed at a (trial, generation): it is the context's own deadline (ExpSim.DeadlineNs)
+	FaultDeadline = 100
 )
 
 var FaultNames = []string{"none", "eval-error", "cancel@eval-entry", "cancel@eval-mid(timer)", "cancel@eval-exit", "cancel@TrialRunStarted",
@@ -104,6 +106,10 @@ type ExpSim struct {
 	// WinnerRecordWhenUnsolved: the evaluator also fills the winner fields of generations it does not report solved (a
 	// two-stage evaluator that found a candidate which then failed the second test does that)
 	WinnerRecordWhenUnsolved bool
+	// DeadlineNs > 0: the run's context carries a deadline that many simulated nanoseconds after the start (fake clock
+	// only); it expires while some evaluation is in progress, since evaluations are the only thing that takes time
+	DeadlineNs int64
+	baseCtx    context.Context
 	// NoBubble forces the real clock even when a fake one is available (C17 compares both)
 	NoBubble bool
 	// OnEval, when set, observes the population at every evaluator entry
@@ -185,6 +191,15 @@ func (s *ExpSim) GenerationEvaluate(ctx context.Context, pop *genetics.Populatio
 		time.Sleep(sleep)
 		s.SimElapsed += sleep
 	}
+	if s.DeadlineNs > 0 && s.baseCtx != nil && s.baseCtx.Err() != nil && s.CancelSeq < 0 {
+		// the deadline passed while this evaluation was in progress
+		s.CancelSeq = len(s.Log)
+		if s.FaultSeq < 0 {
+			s.FaultSeq = len(s.Log)
+			s.FaultKind = FaultDeadline
+		}
+		s.Fired["fault.deadline-expired@eval-mid"]++
+	}
 	if f := s.faultAt(FaultEvalError, trial, gen); f != nil {
 		if s.FaultSeq < 0 {
 			s.FaultSeq = len(s.Log)
@@ -263,6 +278,10 @@ func (s *ExpSim) Run(lib func(string, func())) {
 	s.fakeClock = HasFakeClock && !s.NoBubble && s.Opts.EpochExecutorType == neat.EpochExecutorTypeSequential
 	body := func() {
 		base, cancel := context.WithCancel(context.Background())
+		if s.DeadlineNs > 0 && s.fakeClock {
+			base, cancel = context.WithTimeout(context.Background(), time.Duration(s.DeadlineNs))
+		}
+		s.baseCtx = base
 		s.Cancel = cancel
 		defer cancel()
 		ctx := neat.NewContext(base, s.Opts)
@@ -393,8 +412,11 @@ func DrawExpSim(c *RunCtx, maxTrials, maxGens, maxPop int, parallelAllowed bool)
 // Describe renders the experiment shape.
 func (s *ExpSim) Describe() string {
 	pre := ""
+	if s.DeadlineNs > 0 {
+		pre = fmt.Sprintf(" deadline=%v", time.Duration(s.DeadlineNs))
+	}
 	if s.PreTrials > 0 {
-		pre = fmt.Sprintf(" preallocatedTrials=%d", s.PreTrials)
+		pre += fmt.Sprintf(" preallocatedTrials=%d", s.PreTrials)
 	}
 	return fmt.Sprintf("trials=%d generations=%d solvedAt=%v observer=%t%s faults=%v %s", s.Opts.NumRuns, s.Opts.NumGenerations, s.SolvedAt, s.Observer, pre, s.Faults, OptSummary(s.Opts))
 }
